@@ -3113,3 +3113,77 @@ def expand_sliced_star(fn) -> int:
                 known.pop(name, None)
     walk(fn.body, {})
     return n
+
+
+# ----------------------------------------------------------------------------------------------------------------------
+# S25  a value selected by an if-chain and consumed once by the very next statement: the consumer moves into the arms
+#      if c: v = A            if c: x, y = A
+#      else: v = B      ->    else: x, y = B            (A, B: names / constants / displays of those; v read nowhere else)
+#      x, y = v
+#      (also `strategy = pick; r = strategy(args)` with function names in the arms)
+def sink_selected_value(fn) -> int:
+    def simple(e):
+        if isinstance(e, (ast.Constant, ast.Name)):
+            return True
+        if isinstance(e, (ast.Tuple, ast.List)):        # (no attribute reads: a property may run code)
+            return all(simple(x) for x in e.elts)
+        if isinstance(e, ast.UnaryOp) and isinstance(e.op, ast.USub):
+            return isinstance(e.operand, ast.Constant)
+        return False
+
+    def leaves(st, v, out):
+        """the arms of an if / elif / else chain, each of which is the single statement `v = <simple>`; False if the chain is anything else"""
+        for arm in (st.body, st.orelse):
+            if len(arm) == 1 and isinstance(arm[0], ast.If):
+                if not leaves(arm[0], v, out):
+                    return False
+            elif len(arm) == 1 and isinstance(arm[0], ast.Assign) and len(arm[0].targets) == 1 and isinstance(arm[0].targets[0], ast.Name) \
+                    and arm[0].targets[0].id == v and simple(arm[0].value):
+                out.append((arm, arm[0]))
+            else:
+                return False
+        return True
+
+    loads = {}
+    for x in ast.walk(fn):
+        if isinstance(x, ast.Name) and isinstance(x.ctx, ast.Load):
+            loads[x.id] = loads.get(x.id, 0) + 1
+    n = 0
+
+    def block(stmts):
+        nonlocal n
+        i = 0
+        while i < len(stmts):
+            st = stmts[i]
+            for fld in ("body", "orelse", "finalbody"):
+                if isinstance(getattr(st, fld, None), list) and not isinstance(st, FUNC):
+                    block(getattr(st, fld))
+            for h in getattr(st, "handlers", []) or []:
+                block(h.body)
+            if isinstance(st, ast.If) and st.orelse and i + 1 < len(stmts):
+                first = st.body[0] if len(st.body) == 1 else None
+                while isinstance(first, ast.If) and len(first.body) == 1:
+                    first = first.body[0]
+                v = first.targets[0].id if isinstance(first, ast.Assign) and len(first.targets) == 1 and isinstance(first.targets[0], ast.Name) else None
+                nxt = stmts[i + 1]
+                if v is not None and loads.get(v, 0) == 1 and isinstance(nxt, (ast.Assign, ast.Expr, ast.Return, ast.AugAssign, ast.AnnAssign)):
+                    uses = [x for x in ast.walk(nxt) if isinstance(x, ast.Name) and x.id == v]
+                    tests_read_v = any(isinstance(x, ast.Name) and x.id == v for t in ast.walk(st) if isinstance(t, ast.If) for x in ast.walk(t.test))
+                    out = []
+                    if len(uses) == 1 and isinstance(uses[0].ctx, ast.Load) and not tests_read_v and leaves(st, v, out) and len(out) >= 2:
+                        for arm, asg in out:
+                            new = copy.deepcopy(nxt)
+                            val = asg.value
+
+                            class Put(ast.NodeTransformer):
+                                def visit_Name(self, x):
+                                    return copy.deepcopy(val) if x.id == v and isinstance(x.ctx, ast.Load) else x
+                            arm[0] = ast.copy_location(Put().visit(new), asg)
+                        del stmts[i + 1]
+                        loads[v] = 0
+                        n += 1
+                        ast.fix_missing_locations(st)
+                        continue
+            i += 1
+    block(fn.body)
+    return n
